@@ -797,7 +797,9 @@ func (f *Frame) enterLoop(li *loopInfo, b *ssa.BasicBlock) {
 			st.Set(k, s, nv)
 			continue
 		}
-		st.Set(k, s, f.fresh("hv$"+k, s))
+		nvk := f.fresh("hv$"+k, s)
+		f.counterMonotone(k, s, f.st.Get(k, s), nvk)
+		st.Set(k, s, nvk)
 	}
 	if _, ok := li.modkeys[allocKey]; ok {
 		// allocation only grows
